@@ -15,13 +15,29 @@
 //	            ran the handler", for every path of the space including
 //	            one-symbol neighbours and type-invalid fillings.
 //
+// Families (audit round, see AUDIT.md):
+//
+//	main:    the delimited patterns above; patterns of <=3 tokens also get values spelled with the
+//	         special characters of the syntax (x:y, x+y, *) and are registered a second time WITHOUT
+//	         their leading slash (app.Get("a/:p"), RoutePatternMatch(path, "a/:p")).
+//	escaped: patterns with at least one literal written with an escaped special character
+//	         (`\:`, `a\:b`, `\*a`, `a\+`); the path carries the plain character.
+//	long:    patterns with three (thorough: four) parameters over reduced alphabets, letter
+//	         separators included ("/:p/a/*-+/a").
+//
+// Every oracle-(a) case is dispatched twice: default context and a custom context installed with
+// NewCtxFunc (custom-context request handler). On every request that reaches the handler the
+// documented short keys Params("*") / Params("+") must equal Params("*1") / Params("+1").
+//
 // Tiers:
 //
-//	quick:    patterns of <=4 tokens (+ 5-token patterns made of bare delimiters and
-//	          parameters), 8 values; ~4*10^7 evaluations, ~140 core-seconds.
-//	thorough: patterns of <=5 tokens, 9 values; ~1.2*10^9 evaluations, ~4000 core-seconds.
+//	quick:    main: patterns of <=4 tokens (+ 5-token patterns made of bare delimiters and parameters),
+//	          8 values; escaped: <=3 tokens full alphabet, 4 tokens reduced; long: 3 parameters;
+//	          ~7.3*10^7 evaluations, ~250 core-seconds (capped by CPU time used, not by wall clock).
+//	thorough: main: patterns of <=5 tokens, 9 values; escaped: <=4 tokens; long: 3 and 4 parameters.
 //
-// Signatures: sig.go. Debug knob: C03_MAXTOK=n (all patterns of <=n tokens only).
+// Signatures: sig.go. Debug knobs: C03_MAXTOK=n (main family, all patterns of <=n tokens only),
+// C03_FAMILY=main|escaped|long (one family only).
 package main
 
 import (
@@ -29,6 +45,7 @@ import (
 	"os"
 	"sort"
 	"strings"
+	"syscall"
 	"time"
 
 	"github.com/gofiber/fiber/v3"
@@ -50,8 +67,36 @@ const (
 )
 
 type tok struct {
-	kind int
-	text string // literal text (delimiter + lit) for kLit
+	kind  int
+	text  string // literal text (delimiter + lit) for kLit, as it appears in a PATH
+	ptext string // the same literal as spelled in the PATTERN when that differs (escaped special characters)
+}
+
+// spelled is the literal as written in the pattern.
+func (t tok) spelled() string {
+	if t.ptext != "" {
+		return t.ptext
+	}
+	return t.text
+}
+
+// lit is one literal letter: its path text and, when different, its pattern spelling.
+type lit struct{ text, ptext string }
+
+func plainLits(ss []string) []lit {
+	out := make([]lit, len(ss))
+	for i, s := range ss {
+		out[i] = lit{text: s}
+	}
+	return out
+}
+
+// family is one sub-space of the exploration: a pattern set with its own value alphabet and
+// its own share of oracle (b).
+type family struct {
+	name       string
+	values     []string
+	neighbours bool // oracle (b) also sees every one-symbol deletion/insertion of the type-valid filled paths
 }
 
 type pat struct {
@@ -62,7 +107,13 @@ type pat struct {
 	runs    []string // maximal literal runs
 	follow  []string // per parameter: the literal token that follows it ("" = end of pattern)
 	litAlph bool     // some literal contains a letter
+	esc     bool     // some literal is spelled with an escaped special character
+	reg     string   // the pattern as handed to app.Get / RoutePatternMatch (text, or text without its leading slash)
+	noSlash bool     // reg lacks the leading slash (registration adds it)
 	shape   string
+	fam     *family
+	star1   int // index (into keys) of the first '*' / '+' parameter, -1 if none
+	plus1   int
 }
 
 var delims = []string{"/", "-", "."}
@@ -73,7 +124,7 @@ var paramNames = []string{"p", "q", "r", "s", "t", "u"}
 func (t tok) isParam() bool { return t.kind != kLit }
 
 func finishPat(toks []tok) *pat {
-	p := &pat{toks: append([]tok(nil), toks...)}
+	p := &pat{toks: append([]tok(nil), toks...), star1: -1, plus1: -1}
 	var sb, sh strings.Builder
 	named, stars, pluses := 0, 0, 0
 	run := ""
@@ -83,7 +134,10 @@ func finishPat(toks []tok) *pat {
 		}
 		switch t.kind {
 		case kLit:
-			sb.WriteString(t.text)
+			sb.WriteString(t.spelled())
+			if t.ptext != "" {
+				p.esc = true
+			}
 			run += t.text
 			sh.WriteString(t.text[:1])
 			if len(t.text) > 1 {
@@ -106,11 +160,17 @@ func finishPat(toks []tok) *pat {
 			stars++
 			sb.WriteByte('*')
 			sh.WriteByte('*')
+			if stars == 1 {
+				p.star1 = len(p.keys)
+			}
 			p.keys = append(p.keys, fmt.Sprintf("*%d", stars))
 		case kPlus:
 			pluses++
 			sb.WriteByte('+')
 			sh.WriteByte('+')
+			if pluses == 1 {
+				p.plus1 = len(p.keys)
+			}
 			p.keys = append(p.keys, fmt.Sprintf("+%d", pluses))
 		}
 		if t.isParam() {
@@ -130,12 +190,13 @@ func finishPat(toks []tok) *pat {
 		p.runs = append(p.runs, run)
 	}
 	p.text = sb.String()
+	p.reg = p.text
 	p.shape = sh.String()
 	return p
 }
 
 // enumPatterns lists every delimited pattern of 1..maxTok tokens; the first token is "/"+lit.
-func enumPatterns(maxTok int, lits []string) []*pat {
+func enumPatterns(maxTok int, lits []lit) []*pat {
 	var out []*pat
 	var rec func(cur []tok)
 	rec = func(cur []tok) {
@@ -145,7 +206,7 @@ func enumPatterns(maxTok int, lits []string) []*pat {
 		}
 		for _, d := range delims {
 			for _, l := range lits {
-				rec(append(cur, tok{kLit, d + l}))
+				rec(append(cur, litTok(d, l)))
 			}
 		}
 		if !cur[len(cur)-1].isParam() { // delimited: a parameter never follows a parameter
@@ -155,9 +216,17 @@ func enumPatterns(maxTok int, lits []string) []*pat {
 		}
 	}
 	for _, l := range lits {
-		rec([]tok{{kLit, "/" + l}})
+		rec([]tok{litTok("/", l)})
 	}
 	return out
+}
+
+func litTok(d string, l lit) tok {
+	t := tok{kind: kLit, text: d + l.text}
+	if l.ptext != "" {
+		t.ptext = d + l.ptext
+	}
+	return t
 }
 
 // ---------------------------------------------------------------------------
@@ -589,22 +658,52 @@ type runner struct {
 	hit  bool
 	got  []string
 	rt   string
+	// the documented short keys: Params("*") / Params("+") name the first wildcard / plus parameter
+	gotStar, gotPlus string
 }
 
-func newRunner(p *pat, c rcfg) *runner {
+// customCtx is the smallest custom context an application can install with NewCtxFunc: it changes
+// nothing, but requests are then dispatched by the custom-context request handler.
+type customCtx struct{ fiber.DefaultCtx }
+
+func newRunner(p *pat, c rcfg, custom bool) *runner {
 	rn := &runner{got: make([]string, len(p.keys))}
 	app := fiber.New(fiber.Config{CaseSensitive: c.CS, StrictRouting: c.Strict, UnescapePath: c.Unesc})
+	if custom {
+		app.NewCtxFunc(func(a *fiber.App) fiber.CustomCtx {
+			return &customCtx{DefaultCtx: *fiber.NewDefaultCtx(a)}
+		})
+	}
 	keys := p.keys
-	app.Get(p.text, func(ctx fiber.Ctx) error {
+	star1, plus1 := p.star1, p.plus1
+	app.Get(p.reg, func(ctx fiber.Ctx) error {
 		rn.hit = true
 		for i, k := range keys {
 			rn.got[i] = strings.Clone(ctx.Params(k))
+		}
+		if star1 >= 0 {
+			rn.gotStar = strings.Clone(ctx.Params("*"))
+		}
+		if plus1 >= 0 {
+			rn.gotPlus = strings.Clone(ctx.Params("+"))
 		}
 		rn.rt = ctx.Route().Path
 		return nil
 	})
 	rn.h = app.Handler()
 	return rn
+}
+
+// shortKeyFault names the short key whose answer differs from the numbered key of the same parameter
+// ("" = none). Judged on every request that reached the handler, whatever the path.
+func (rn *runner) shortKeyFault(p *pat) string {
+	if p.star1 >= 0 && rn.gotStar != rn.got[p.star1] {
+		return "*"
+	}
+	if p.plus1 >= 0 && rn.gotPlus != rn.got[p.plus1] {
+		return "+"
+	}
+	return ""
 }
 
 func (rn *runner) call(path string) bool {
@@ -627,9 +726,10 @@ func (rn *runner) call(path string) bool {
 	return rn.hit
 }
 
-// wireOK: the path can be written on a request line and is a path (no raw space, starts with '/').
+// wireOK: the path can be written on a request line and is read as a path there (no raw space, starts
+// with '/', no "://" — fasthttp reads a request target containing "://" as an absolute URI).
 func wireOK(path string) bool {
-	return len(path) > 0 && path[0] == '/' && strings.IndexByte(path, ' ') < 0
+	return len(path) > 0 && path[0] == '/' && strings.IndexByte(path, ' ') < 0 && !strings.Contains(path, "://")
 }
 
 // normalised is the path as the configuration sentence reads it (used for classification only).
@@ -677,32 +777,176 @@ const (
 
 var outcomeText = [nOutcomes]string{"unspecified", "must: matched, values returned", "must: NOT MATCHED", "must: matched, WRONG VALUES", "must-not: not matched", "must-not: MATCHED"}
 
+// escaped literal letters: the special characters of the syntax written with the documented escape
+// ("\\:" in a Go string). In the path the character stands for itself.
+var escLits = []lit{{":", `\:`}, {"a:b", `a\:b`}, {"*a", `\*a`}, {"a+", `a\+`}}
+var escLitsReduced = []lit{{"", ""}, {"a", ""}, {":", `\:`}, {"a*b", `a\*b`}}
+
+// values spelled with the special characters of the syntax (in a path they are ordinary characters)
+var specialValues = []string{"x:y", "x+y", "*"}
+
+// enumLong lists the delimited patterns with exactly n parameters over reduced alphabets:
+// first literal x n parameter kinds x (n-1) separators x an optional trailing literal.
+func enumLong(n int, first, seps, trail [][]lit2) []*pat {
+	var out []*pat
+	var rec func(cur []tok, k int)
+	rec = func(cur []tok, k int) {
+		if k == n {
+			for _, t := range trail {
+				out = append(out, finishPat(append(append([]tok(nil), cur...), toksOf(t)...)))
+			}
+			return
+		}
+		for _, kind := range paramKinds {
+			withP := append(append([]tok(nil), cur...), tok{kind: kind})
+			if k == n-1 {
+				rec(withP, k+1)
+				continue
+			}
+			for _, s := range seps {
+				rec(append(append([]tok(nil), withP...), toksOf(s)...), k+1)
+			}
+		}
+	}
+	for _, f := range first {
+		rec(toksOf(f), 0)
+	}
+	return out
+}
+
+// lit2 is a literal token given as delimiter + letters.
+type lit2 struct{ d, l string }
+
+func toksOf(ls []lit2) []tok {
+	var out []tok
+	for _, x := range ls {
+		out = append(out, tok{kind: kLit, text: x.d + x.l})
+	}
+	return out
+}
+
 func main() {
 	r := core.Start("C03")
 	// quick: all patterns of <=4 tokens over the full literal alphabet plus the 5-token patterns over
 	// the empty literal only (delimiters and parameters); thorough: all patterns of <=5 tokens, one more value.
 	maxTok, extraTok := 4, 5
 	values := []string{"", "x", "xy", "X", "x y", "x-y", "x.y", "x/y"}
+	escTok, escTokReduced := 3, 4 // escaped-literal family: full alphabet up to escTok tokens, reduced alphabet up to escTokReduced
+	longMax := 3                  // long family: patterns with 3..longMax parameters
 	if !r.Quick() {
 		maxTok, extraTok = 5, 0
 		values = append(values, "a")
+		escTok, escTokReduced = 4, 4
+		longMax = 4
 	}
+	onlyFam := os.Getenv("C03_FAMILY") // debug knob: run one family only (main, escaped, long)
 	if s := os.Getenv("C03_MAXTOK"); s != "" {
 		fmt.Sscan(s, &maxTok)
 		extraTok = 0
+		if onlyFam == "" {
+			onlyFam = "main"
+		}
 	}
-	pats := enumPatterns(maxTok, lits)
-	if extraTok > maxTok {
-		for _, p := range enumPatterns(extraTok, []string{""}) {
-			if len(p.toks) > maxTok {
+	valuesPlus := append(append([]string(nil), values...), specialValues...)
+	famMain := &family{name: "main", values: values, neighbours: true}
+	famShort := &family{name: "main", values: valuesPlus, neighbours: true} // patterns of <=3 tokens also get the special-character values
+	famEsc := &family{name: "escaped", values: valuesPlus, neighbours: true}
+	famEscReduced := &family{name: "escaped", values: []string{"", "x", "X/y", "x:y", "x-y"}, neighbours: false}
+	famLong := &family{name: "long", values: []string{"", "x", "X-y", "x/Y"}, neighbours: false}
+	famLong4 := &family{name: "long", values: []string{"", "x", "x/Y"}, neighbours: false} // four parameters (thorough)
+
+	var pats []*pat
+	if onlyFam == "" || onlyFam == "main" {
+		for _, p := range enumPatterns(maxTok, plainLits(lits)) {
+			p.fam = famMain
+			if len(p.toks) <= 3 {
+				p.fam = famShort
+			}
+			pats = append(pats, p)
+		}
+		if extraTok > maxTok {
+			for _, p := range enumPatterns(extraTok, plainLits([]string{""})) {
+				if len(p.toks) > maxTok {
+					p.fam = famMain
+					pats = append(pats, p)
+				}
+			}
+		}
+	}
+	// the same short patterns written without their leading slash ("" for "/"): registration and
+	// RoutePatternMatch both promise to add it
+	nNoSlash := 0
+	if onlyFam == "" || onlyFam == "main" {
+		for _, p := range enumPatterns(3, plainLits(lits)) {
+			if len(p.toks) > maxTok || strings.HasPrefix(p.text[1:], "/") {
+				continue // without its first slash the text would be another pattern that has one
+			}
+			p.fam = famShort
+			p.reg, p.noSlash = p.text[1:], true
+			pats = append(pats, p)
+			nNoSlash++
+		}
+	}
+	nEscPats, nLongPats := 0, 0
+	if onlyFam == "" || onlyFam == "escaped" {
+		// every pattern with at least one escaped literal
+		for _, p := range enumPatterns(escTok, append(plainLits(lits), escLits...)) {
+			if p.esc {
+				p.fam = famEsc
 				pats = append(pats, p)
+				nEscPats++
+			}
+		}
+		for _, p := range enumPatterns(escTokReduced, escLitsReduced) {
+			if p.esc && len(p.toks) > escTok {
+				p.fam = famEscReduced
+				pats = append(pats, p)
+				nEscPats++
+			}
+		}
+	}
+	longFirst := [][]lit2{{{"/", ""}}, {{"/", "a"}, {"/", ""}}}
+	longSeps := [][]lit2{{{"/", ""}}, {{"-", ""}}, {{"/", "a"}, {"/", ""}}}
+	longTrail := [][]lit2{nil, {{"/", ""}}, {{"/", "a"}}, {{".", "a"}}}
+	if onlyFam == "" || onlyFam == "long" {
+		for n := 3; n <= longMax; n++ {
+			seps := longSeps
+			if n > 3 {
+				seps = longSeps[:2]
+			}
+			for _, p := range enumLong(n, longFirst, seps, longTrail) {
+				p.fam = famLong
+				if n > 3 {
+					p.fam = famLong4
+				}
+				pats = append(pats, p)
+				nLongPats++
 			}
 		}
 	}
 	sort.SliceStable(pats, func(i, j int) bool { return len(pats[i].toks) < len(pats[j].toks) })
-	// internal wall-clock cap (never an oracle): the tail of the largest patterns is dropped and the run is reported as not exhaustive
+	// internal caps (never an oracle): the tail of the largest patterns is dropped and the run is reported as not
+	// exhaustive. The machine is shared, so the quick tier is capped by the CPU time the process has used
+	// (load-independent) with a generous wall-clock backstop; thorough keeps its wall-clock cap.
+	cpuCap := time.Duration(0)
 	if r.Deadline.IsZero() {
-		r.Deadline = r.Start.Add(map[bool]time.Duration{true: 240 * time.Second, false: 14 * time.Minute}[r.Quick()])
+		r.Deadline = r.Start.Add(map[bool]time.Duration{true: 20 * time.Minute, false: 14 * time.Minute}[r.Quick()])
+		if r.Quick() {
+			cpuCap = 900 * time.Second
+		}
+	}
+	expired := func() bool {
+		if r.Expired() {
+			return true
+		}
+		if cpuCap > 0 {
+			var ru syscall.Rusage
+			if syscall.Getrusage(syscall.RUSAGE_SELF, &ru) == nil {
+				used := time.Duration(ru.Utime.Nano() + ru.Stime.Nano())
+				return used > cpuCap
+			}
+		}
+		return false
 	}
 	var cfgs []rcfg
 	for i := 0; i < 8; i++ {
@@ -730,6 +974,7 @@ func main() {
 	r.Parallel(len(pats), func(pi int, l *core.Local) {
 		p := pats[pi]
 		np := len(p.keys)
+		values := p.fam.values
 		vio := map[string]*core.Violation{}
 		violate := func(sig, what string, cs func() map[string]any, observed, expected any) {
 			if v, ok := vio[sig]; ok {
@@ -743,8 +988,8 @@ func main() {
 				perPat[pi] = vio
 			}
 		}()
-		if r.Expired() {
-			r.Cap("wall-clock cap reached: the tail of the pattern list (ordered by token count) was skipped")
+		if expired() {
+			r.Cap("CPU/wall-clock cap reached: the tail of the pattern list (ordered by token count) was skipped")
 			l.Add("patterns_skipped_by_cap", 1)
 			return
 		}
@@ -769,7 +1014,9 @@ func main() {
 		}
 		rec(0)
 		for _, f := range fills {
-			addNeighbours(pathSet, f.P)
+			if p.fam.neighbours {
+				addNeighbours(pathSet, f.P)
+			}
 			for _, v := range f.vars {
 				pathSet[v.path] = struct{}{}
 			}
@@ -782,103 +1029,160 @@ func main() {
 		}
 		sort.Strings(paths)
 
-		var nEval, nNontrivial, nUnspec, nAdm, nOutside, nNotWire, nRpm int64
+		var nEval, nNontrivial, nUnspec, nAdm, nOutside, nNotWire, nRpm, nCustom, nShortKey int64
 		var aOut [nVariants][nOutcomes]int64
 		var bOut [2][2]int64
+		// verdicts of the default-context pass, replayed against the custom-context pass: a case that fails
+		// in both is one root cause and keeps its signature, a case failing only there is marked so
+		var failedDefault map[string]struct{}
 		for _, c := range cfgs {
-			rn := newRunner(p, c)
 			fc := fiberCfg(c)
 			fold := b2i(!c.CS)
-			for _, f := range fills {
-				if !f.adm[fold] {
-					nOutside++
-					continue
+			var rnDefault *runner
+			for ck := 0; ck < 2; ck++ {
+				custom := ck == 1
+				rn := newRunner(p, c, custom)
+				ctxSuffix := ""
+				if custom {
+					ctxSuffix = " ctx=custom-only"
+				} else {
+					rnDefault = rn
+					failedDefault = map[string]struct{}{}
 				}
-				nAdm++
-				for vi := range f.vars {
-					v := &f.vars[vi]
-					if !wireOK(v.path) {
-						nNotWire++
+				for fi, f := range fills {
+					if !f.adm[fold] {
+						if !custom {
+							nOutside++
+						}
 						continue
 					}
-					nEval++
-					v.cl = p.claimFor(f, v, c)
-					if v.cl.kind == cUnspec {
-						nUnspec++
-						aOut[v.id][oUnspec]++
-						continue
+					if !custom {
+						nAdm++
 					}
-					hit := rn.call(v.path)
-					if np > 0 {
-						nNontrivial++
-					}
-					mkCase := func() map[string]any {
-						return map[string]any{"pattern": p.text, "values": f.vals, "variant": v.name, "path": v.path, "config": c.String()}
-					}
-					if np == 2 && pi%211 == 0 && v.id != vAsIs && c.Unesc && !c.CS && len(perPatSamples[pi]) < 2 && f.vals[0] != "" && f.vals[1] != "" {
-						perPatSamples[pi] = append(perPatSamples[pi], map[string]any{"case": mkCase(), "claim": []string{"unspecified", "must", "must-not"}[v.cl.kind], "handler_ran": hit, "params": append([]string(nil), rn.got...)})
-					}
-					switch v.cl.kind {
-					case cMust:
-						if !hit {
-							aOut[v.id][oMustNoMatch]++
-							violate(sigA(p, *v, c, "no-match", rn.got), "a path filled according to the statement does not reach the lone route", mkCase, "404", "handler runs")
+					for vi := range f.vars {
+						v := &f.vars[vi]
+						if !wireOK(v.path) {
+							if !custom {
+								nNotWire++
+							}
 							continue
 						}
-						ok := rn.rt == p.text
-						for i := range v.cl.vals {
-							if rn.got[i] == v.cl.vals[i] {
+						nEval++
+						v.cl = p.claimFor(f, v, c)
+						if v.cl.kind == cUnspec {
+							nUnspec++
+							aOut[v.id][oUnspec]++
+							continue
+						}
+						hit := rn.call(v.path)
+						if np > 0 {
+							nNontrivial++
+						}
+						if custom {
+							nCustom++
+						}
+						caseKey := fmt.Sprintf("%d/%d", fi, vi)
+						mkCase := func() map[string]any {
+							m := map[string]any{"pattern": p.reg, "values": f.vals, "variant": v.name, "path": v.path, "config": c.String()}
+							if custom {
+								m["context"] = "custom (NewCtxFunc)"
+							}
+							return m
+						}
+						fail := func(sig, what string, observed, expected any) {
+							if !custom {
+								failedDefault[caseKey] = struct{}{}
+							} else if _, both := failedDefault[caseKey]; both {
+								return // same case already reported from the default context
+							}
+							violate(sig+ctxSuffix, what, mkCase, observed, expected)
+						}
+						if !custom && np == 2 && pi%211 == 0 && v.id != vAsIs && c.Unesc && !c.CS && len(perPatSamples[pi]) < 2 && f.vals[0] != "" && f.vals[1] != "" {
+							perPatSamples[pi] = append(perPatSamples[pi], map[string]any{"case": mkCase(), "claim": []string{"unspecified", "must", "must-not"}[v.cl.kind], "handler_ran": hit, "params": append([]string(nil), rn.got...)})
+						}
+						switch v.cl.kind {
+						case cMust:
+							if !hit {
+								aOut[v.id][oMustNoMatch]++
+								fail(sigA(p, *v, c, "no-match", rn.got), "a path filled according to the statement does not reach the lone route", "404", "handler runs")
 								continue
 							}
-							if i == len(v.cl.vals)-1 && v.cl.altOK && rn.got[i] == v.cl.altLast {
+							ok := rn.rt == p.text
+							for i := range v.cl.vals {
+								if rn.got[i] == v.cl.vals[i] {
+									continue
+								}
+								if i == len(v.cl.vals)-1 && v.cl.altOK && rn.got[i] == v.cl.altLast {
+									continue
+								}
+								ok = false
+							}
+							if !ok {
+								aOut[v.id][oMustWrong]++
+								fail(sigA(p, *v, c, "wrong-values", rn.got), "Params does not return the values the path was filled with",
+									map[string]any{"params": append([]string(nil), rn.got...), "route": rn.rt}, v.cl.vals)
 								continue
 							}
-							ok = false
+							if k := rn.shortKeyFault(p); k != "" {
+								nShortKey++
+								aOut[v.id][oMustWrong]++
+								fail("params short-key Params(\""+k+"\") differs from Params(\""+k+"1\")", "the documented short key of the first wildcard / plus parameter does not return that parameter's value",
+									map[string]any{"params": append([]string(nil), rn.got...), "Params(*)": rn.gotStar, "Params(+)": rn.gotPlus}, "equal to the numbered key")
+								continue
+							}
+							aOut[v.id][oMustOK]++
+						case cMustNot:
+							if hit {
+								aOut[v.id][oMustNotMatched]++
+								fail(sigA(p, *v, c, "matched-although-config-says-different", rn.got), "the configuration makes this spelling a different path, no reading of the pattern describes it, yet the route answered",
+									map[string]any{"params": append([]string(nil), rn.got...)}, "404")
+								continue
+							}
+							aOut[v.id][oMustNotOK]++
 						}
-						if !ok {
-							aOut[v.id][oMustWrong]++
-							violate(sigA(p, *v, c, "wrong-values", rn.got), "Params does not return the values the path was filled with", mkCase,
-								map[string]any{"params": append([]string(nil), rn.got...), "route": rn.rt}, v.cl.vals)
-							continue
-						}
-						aOut[v.id][oMustOK]++
-					case cMustNot:
-						if hit {
-							aOut[v.id][oMustNotMatched]++
-							violate(sigA(p, *v, c, "matched-although-config-says-different", rn.got), "the configuration makes this spelling a different path, no reading of the pattern describes it, yet the route answered", mkCase,
-								map[string]any{"params": append([]string(nil), rn.got...)}, "404")
-							continue
-						}
-						aOut[v.id][oMustNotOK]++
 					}
 				}
 			}
 			// oracle (b)
+			rn := rnDefault
 			for _, path := range paths {
 				hit := rn.call(path)
-				rpm := fiber.RoutePatternMatch(path, p.text, fc)
+				rpm := fiber.RoutePatternMatch(path, p.reg, fc)
 				nEval++
 				nRpm++
 				if np > 0 {
 					nNontrivial++
 				}
 				bOut[b2i(hit)][b2i(rpm)]++
+				if hit {
+					if k := rn.shortKeyFault(p); k != "" {
+						nShortKey++
+						violate("params short-key Params(\""+k+"\") differs from Params(\""+k+"1\")", "the documented short key of the first wildcard / plus parameter does not return that parameter's value",
+							func() map[string]any { return map[string]any{"pattern": p.reg, "path": path, "config": c.String()} },
+							map[string]any{"params": append([]string(nil), rn.got...), "Params(*)": rn.gotStar, "Params(+)": rn.gotPlus}, "equal to the numbered key")
+					}
+				}
 				if hit == rpm {
 					continue
 				}
 				violate(sigB(p, path, c, hit, rpm, fc), "RoutePatternMatch disagrees with dispatching the path to an app holding only that route",
-					func() map[string]any { return map[string]any{"pattern": p.text, "path": path, "config": c.String()} },
+					func() map[string]any { return map[string]any{"pattern": p.reg, "path": path, "config": c.String()} },
 					map[string]any{"RoutePatternMatch": rpm, "handler_ran": hit}, "equal")
 			}
 		}
 		l.Add("patterns", 1)
+		l.Add("patterns_"+p.fam.name, 1)
+		l.Add(fmt.Sprintf("patterns_with_%d_params", np), 1)
 		l.Add("evaluations", nEval)
+		l.Add("evaluations_"+p.fam.name, nEval)
 		l.Add("nontrivial", nNontrivial)
 		l.Add("unspecified_skipped", nUnspec)
 		l.Add("fillings_admissible", nAdm)
 		l.Add("fillings_outside_side_conditions", nOutside)
 		l.Add("skipped_not_wire_expressible", nNotWire)
 		l.Add("rpm_comparisons", nRpm)
+		l.Add("custom_context_dispatches", nCustom)
+		l.Add("short_key_faults", nShortKey)
 		for v := 0; v < nVariants; v++ {
 			for o := 0; o < nOutcomes; o++ {
 				if aOut[v][o] > 0 {
@@ -915,16 +1219,20 @@ func main() {
 		Coverage: map[string]any{
 			"evaluations":         r.P.Counters["evaluations"],
 			"distinct_nontrivial": r.P.Counters["nontrivial"],
-			"rule": fmt.Sprintf("every delimited pattern of <=%d tokens (first token '/'+lit, then any of 12 literal tokens {/,-,.}x%q or a parameter {:p,:p?,*,+} never directly after a parameter)%s = %d patterns; x every assignment of %q to its parameters; (a) assignments meeting the side conditions x spelling variants %q x 8 configs judged must/must-not/unspecified; (b) every filled path (side conditions NOT required, type-invalid values included), every variant path and every one-symbol deletion/insertion (symbols %q) of the type-valid filled paths x 8 configs: RoutePatternMatch vs lone-route app. A case is non-trivial when the pattern has at least one parameter and the oracle gave a verdict (not unspecified)",
-				maxTok, lits, map[bool]string{true: fmt.Sprintf(" plus every %d-token pattern whose literals are bare delimiters", extraTok), false: ""}[extraTok > maxTok], len(pats), values, variantNames, neighbourSyms),
+			"rule": fmt.Sprintf("family main: every delimited pattern of <=%d tokens (first token '/'+lit, then any of 12 literal tokens {/,-,.}x%q or a parameter {:p,:p?,*,+} never directly after a parameter)%s x every assignment of %q to its parameters (patterns of <=3 tokens also %q, and each of them a second time registered without its leading slash: %d patterns); family escaped (%d patterns): every such pattern of <=%d tokens over the literal alphabet extended by the escaped letters %q, and of <=%d tokens over %q, with at least one escaped literal; family long (%d patterns): every pattern with 3..%d parameters {:p,:p?,*,+} built as first literal {/,/a/} x separators {/,-,/a/} x trailing {none,/,/a,.a} x every assignment of %q; total %d patterns. (a) assignments meeting the side conditions x spelling variants %q x 8 configs x {default context, custom context installed with NewCtxFunc} judged must/must-not/unspecified, and on every request that reaches the handler Params(\"*\")/Params(\"+\") must equal Params(\"*1\")/Params(\"+1\"); (b) every filled path (side conditions NOT required, type-invalid values included), every variant path and (families main, escaped) every one-symbol deletion/insertion (symbols %q) of the type-valid filled paths x 8 configs: RoutePatternMatch vs lone-route app. A case is non-trivial when the pattern has at least one parameter and the oracle gave a verdict (not unspecified)",
+				maxTok, lits, map[bool]string{true: fmt.Sprintf(" plus every %d-token pattern whose literals are bare delimiters", extraTok), false: ""}[extraTok > maxTok], values, specialValues, nNoSlash,
+				nEscPats, escTok, escLits, escTokReduced, escLitsReduced, nLongPats, longMax, famLong.values, len(pats), variantNames, neighbourSyms),
 			"samples": samples,
-			"bounds":  map[string]any{"max_tokens": maxTok, "extra_tokens_reduced_literals": extraTok, "value_alphabet": values, "literal_alphabet": lits, "neighbour_symbols": neighbourSyms, "patterns": len(pats), "configs": 8},
+			"bounds": map[string]any{"max_tokens": maxTok, "extra_tokens_reduced_literals": extraTok, "value_alphabet": values, "special_values_short_patterns": specialValues, "literal_alphabet": lits,
+				"escaped_literals": escLits, "escaped_max_tokens": escTok, "escaped_reduced_max_tokens": escTokReduced, "long_max_params": longMax, "long_values": famLong.values,
+				"neighbour_symbols": neighbourSyms, "patterns": len(pats), "configs": 8, "context_kinds": 2},
 		},
 		Assumptions: []string{
 			"handler-level drive: app.Handler() through fx.CallInto with a Host header; fasthttp request-line parsing is not re-checked (paths with a raw space are not sent)",
 			"'a literal that follows a parameter' is read as the single literal token after the parameter, overlapping occurrences, case-folded when the router folds case: fillings excluded by this reading are not judged",
 			"slash-added is judged only for paths without a trailing slash; for a trailing greedy parameter both v and v+'/' are accepted; must-not is demanded only when a permissive reference matcher (incl. the documented optional slash before trailing optional parameters) cannot describe the path",
-			"constraints, escapes and adjacent parameters are outside this check (C02 / not delimited); random larger patterns of the quantifier are not sampled",
+			"constraints and adjacent parameters are outside this check (C02 / not delimited); random larger patterns of the quantifier are not sampled",
+			"the custom context embeds DefaultCtx unchanged; oracle (b) runs on the default context only",
 		},
 		MinOutcomes: 4,
 	}
